@@ -1,7 +1,7 @@
 """Boundary recorder for HdlcFrameReader: feed chunks, record what read() returns."""
 from __future__ import annotations
 
-from vf.mon import clock
+from vf.mon import clock, containers
 from vf.ref import hdlc_ref
 
 
@@ -49,19 +49,42 @@ def boundary_state(reader) -> tuple:
     return (hunt, esc, bucket)
 
 
+# what the *other* reader object of the process receives between two calls of the observed one: partial frames, calls that end right
+# after an escape octet or inside a header, aborts, flags, an over-long run - every state a reader can be left in
+BYSTANDER_SCRIPT = (b"\x7e\xa0\x0c\x01\x02\x01\x10\x27\xa0", b"\x02\x7d", b"\x5e\x7d", b"\x7e", b"\x7e\xa0", b"\x7d", b"\x7e\x7e\x7e", b"\xa0\x08\x01\x02\x01\x10\x37\x8d\x7e",
+                    b"\x7e\xa7\xff\x03" + b"\x55" * 60, b"\x41\x7d", b"\x7d\x7e", b"\x00" * 40 + b"\x7d", b"\x7e\xa0\x0c\x01\x02\x01\x10\x27\xa0\x02\x01\xe7\xde\x7e", b"\x7e\xa8\x0c\x01\x7d")
+_runs = 0
+
+
 def run(cfg, chunks, ctx=None, reader=None, states: set | None = None):
     """Feed all chunks; returns (list of observed frames, exception or None)."""
+    global _runs
+    _runs += 1
     reader = reader or new_reader(cfg)
+    # every third execution another reader object (rotating configuration) is used between the calls: readers are independent objects
+    bystander = new_reader(((_runs // 3) % 2 == 0, (_runs // 6) % 2 == 0)) if _runs % 3 == 0 else None
+    by_i = _runs
     out = []
     kept = []
     err = None
+    usable = containers.probe("hdlc", lambda: new_reader((False, False)), b"\x7e" + bytes.fromhex("a00c0102011027a00201e7de") + b"\x7e")
     for ch in chunks:
         clock.tick()
+        if bystander is not None:
+            by_i += 1
+            try:
+                bystander.read(BYSTANDER_SCRIPT[by_i % len(BYSTANDER_SCRIPT)])
+            except Exception:
+                pass  # not the object under observation
+            containers.used["calls_interleaved_with_another_reader_object"] = containers.used.get("calls_interleaved_with_another_reader_object", 0) + 1
+        lent, release = containers.lend(ch, usable)
         try:
-            frames = reader.read(ch)
+            frames = reader.read(lent)
         except Exception as ex:  # recorded, never swallowed silently: C14 decides on it
             err = ex
             break
+        finally:
+            release()  # the caller's buffer is reused as soon as read() has returned
         poisoned = False
         for f in frames:
             if f is POISON:
